@@ -230,6 +230,10 @@ namespace GeographicLib {
       AuxAngle mu2(aux.Convert(AuxLatitude::PHI, AuxLatitude::MU, chi1));
       return AuxAngle(mu1.y() + mu2.y(), mu1.x());
     }
+    // CP2: AltSum is a copy of Sum with _a -> _alt_a, one name left behind
+    double Sum(double w) const { return _a * w + _a / (1 + w) + _a - _b; }
+    double AltSum(double w) const { return _alt_a * w + _a / (1 + w) + _alt_a - _alt_b; }
+    double _a = 1, _b = 2, _alt_a = 3, _alt_b = 4;
     // CP1: the northing clause is a copy of the easting clause with one name left behind
     static double Pad(double easting, double northing, double scale) {
       double w = 0;
